@@ -125,6 +125,9 @@ type Sim struct {
 	refetchFailed    map[*Variant]bool
 	sawDerived       map[*Variant]bool
 	deletedByRefetch map[*Variant]bool
+	// unsure: a get for this query variant could not be classified as initial
+	// load or reset re-fetch; what the gateway caches is undetermined from then on
+	unsure map[*Variant]bool
 
 	stopped     bool
 	stallTarget string
@@ -149,6 +152,7 @@ func newSim(cfg *RunCfg) *Sim {
 		querySubj:        map[string]string{},
 		sawDerived:       map[*Variant]bool{},
 		deletedByRefetch: map[*Variant]bool{},
+		unsure:           map[*Variant]bool{},
 	}
 	s.obsHash = 1469598103934665603
 	return s
